@@ -38,8 +38,8 @@ def inner_graph(kind, nparams, bcast, fail_items):
         a = T.fn("mb", ps, ["b0"], behav={"py": "('b', " + ", ".join(ps) + ")"})
         b = T.fn("mc", ["b0"] + extra, ["c0", "c1"], behav={"py": "(('c0', b0), ('c1', b0))"})
         if fail_items:
-            b["fail_args"] = {"b0": [("b",) + tuple(canon(i) if nparams == 1 else ()) for i in fail_items]} if nparams == 1 else {}
-            a["fail_args"] = {"x": fail_items} if nparams > 1 else {}
+            # the item fails in the SECOND step, after b0 was produced (partial values exist)
+            b["fail_if"] = f"b0[1] in {[tuple(i) for i in fail_items]!r}"
         return T.prog([a, b], name="item")
     if kind == "branch":
         g = T.ifelse("gt", ["x"], "pos", "neg", behav={"py": "x[1] % 2 == 0"})
